@@ -225,6 +225,8 @@ struct Shape {
     nl: u32,   // NEXTLARGER links
     nv: u32,   // VARCHAR recipes
     np: u32,   // params
+    hx: u32,   // additional header words HEADER D 18 .. D 17+hx (238 gives the maximal header, lh = 256)
+    lhcut: u32, // when 2..17: the header of t0 is cut down to that many words (only a hand-edited .tfm has such a header)
     odd: u32,  // oddities: 1 trailing LABEL without a step, 2 SKIP past the end of the table, 4 LABEL of a character that has no CHARACTER entry, 8 labelled character that also has NEXTLARGER, 16 a CHARACTER entry given twice
     hdr: u32,  // header flavour bits: 1 scheme, 2 family, 4 face, 8 sevenbit flag, 16 extra words, 32 explicit checksum, 64 math sy scheme, 128 math ex
     xc: Vec<u32>, // indices of characters removed after generation (shrinking)
@@ -253,6 +255,8 @@ impl Shape {
             ("np", self.np as u64),
             ("hdr", self.hdr as u64),
             ("odd", self.odd as u64),
+            ("hx", self.hx as u64),
+            ("lhcut", self.lhcut as u64),
         ]
     }
     fn show(&self, cmd: &str) -> String {
@@ -298,6 +302,8 @@ impl Shape {
             np: g("np") as u32,
             hdr: g("hdr") as u32,
             odd: g("odd") as u32,
+            hx: g("hx") as u32,
+            lhcut: g("lhcut") as u32,
             xc: l("xc"),
             xl: l("xl"),
         }
@@ -320,12 +326,13 @@ impl Shape {
         };
         let chains = if nc == 0 { 0 } else { *r.pick(&[0u32, 1, 2, 3, 5, 8, 20, 60, 256]) };
         let nw_lim = if r.chance(1, 10) { 300 } else { 30 };
+        let nw_exact = if r.chance(1, 12) { Some(*r.pick(&[254u32, 255, 256])) } else { None };
         let len_lim = if r.chance(1, 6) { 12 } else { 4 };
         let pad = if big { *r.pick(&[0u32, 0, 1, 100, 200, 250, 254, 255, 256, 257, 300, 600]) } else { *r.pick(&[0u32, 0, 0, 1, 3]) };
         Shape {
             seed: r.next_u64() >> 16,
             nc,
-            nw: 1 + r.below(nw_lim) as u32,
+            nw: nw_exact.unwrap_or(1 + r.below(nw_lim) as u32),
             nh: small(r, 15),
             nd: small(r, 15),
             ni: small(r, 63),
@@ -338,10 +345,12 @@ impl Shape {
             lig: *r.pick(&[0u32, 10, 30, 60]),
             skip: *r.pick(&[0u32, 0, 10, 30]),
             nl: *r.pick(&[0u32, 0, 1, 3, 10]),
-            nv: *r.pick(&[0u32, 0, 1, 2, 5]),
-            np: *r.pick(&[0u32, 0, 1, 7, 8, 13, 22, 30]),
+            nv: *r.pick(&[0u32, 0, 1, 2, 5, 255, 256]),
+            np: *r.pick(&[0u32, 0, 1, 7, 8, 13, 22, 30, 253, 254]),
             hdr: r.below(256) as u32,
             odd: if r.chance(1, 5) { 1 << r.below(5) } else { 0 },
+            hx: *r.pick(&[0u32, 0, 0, 0, 0, 0, 1, 2, 100, 235, 236, 237, 238]),
+            lhcut: *r.pick(&[0u32, 0, 0, 0, 0, 0, 0, 0, 0, 2, 3, 11, 12, 16, 17]),
             xc: vec![],
             xl: vec![],
         }
@@ -627,6 +636,14 @@ fn gen_font(sh: &Shape) -> GFont {
         let n = 1 + r.below(3);
         for i in 0..n {
             f.head.push(format!("(HEADER D {} O {:o})", 18 + i, r.next_u64() as u32));
+        }
+    }
+    // explicit number of additional header words (a separate generator: earlier seeds keep their fonts)
+    if sh.hx > 0 {
+        let mut hr = Rng::new(sh.seed ^ 0x4ead);
+        for i in 0..sh.hx.min(238) {
+            let v = if hr.chance(1, 5) { 0 } else { hr.next_u64() as u32 };
+            f.head.push(format!("(HEADER D {} O {:o})", 18 + i, v));
         }
     }
     let math_sy = h & 64 != 0 && h & 3 == 3;
@@ -1117,7 +1134,8 @@ impl C11 {
                 return;
             }
         };
-        self.compare_fonts(&d0, &d1, out);
+        let t0_sizes: Vec<u16> = if t0.len() >= 24 { (0..12).map(|i| u16::from_be_bytes([t0[2 * i], t0[2 * i + 1]])).collect() } else { vec![] };
+        self.compare_fonts(&d0, &d1, &t0_sizes, out);
         self.compare_ligkern(&d0, &d1, drv, out);
         self.compare_pack(&pl0, drv, out);
         // the normalisation of the instruction list on the way t0 -> pl0 -> (parsed)
@@ -1134,7 +1152,7 @@ impl C11 {
         }
     }
 
-    fn compare_fonts(&self, d0: &Decoded, d1: &Decoded, out: &mut CaseOutcome) {
+    fn compare_fonts(&self, d0: &Decoded, d1: &Decoded, t0_sizes: &[u16], out: &mut CaseOutcome) {
         let k0: Vec<u8> = d0.chars.keys().copied().collect();
         let k1: Vec<u8> = d1.chars.keys().copied().collect();
         if k0 != k1 {
@@ -1239,6 +1257,31 @@ impl C11 {
                 "boundary char differs",
                 format!("t0 {:?} t1 {:?}", d0.file.lig_kern_program.right_boundary_char, d1.file.lig_kern_program.right_boundary_char),
             );
+        }
+        // sub-files of t0 at (or next to) their format limits
+        if t0_sizes.len() == 12 {
+            let z = t0_sizes;
+            let lim = |name: &str, v: u16, limits: &[u16], out: &mut CaseOutcome| {
+                if limits.contains(&v) {
+                    out.tag(format!("size:{name}={v}"));
+                }
+            };
+            lim("lh", z[1], &[2, 3, 11, 12, 16, 17, 18, 19, 20, 118, 253, 254, 255, 256], out);
+            lim("nw", z[4], &[255, 256], out);
+            lim("nh", z[5], &[15, 16], out);
+            lim("nd", z[6], &[15, 16], out);
+            lim("ni", z[7], &[63, 64], out);
+            lim("ne", z[10], &[255, 256], out);
+            lim("np", z[11], &[253, 254], out);
+            if z[8] >= 5000 {
+                out.tag("size:nl>=5000");
+            }
+            if z[9] >= 2000 {
+                out.tag("size:nk>=2000");
+            }
+            if z[3] == 255 && z[2] == 0 {
+                out.tag("size:bc=0,ec=255");
+            }
         }
         let n = d0.chars.len();
         out.tag(match n {
@@ -1522,7 +1565,34 @@ fn dump(name: &str, data: &[u8]) {
     }
 }
 
+/// Cut the header of a .tfm down to `new_lh` words (sub-file sizes adjusted).
+fn cut_header(t: &[u8], new_lh: usize) -> Vec<u8> {
+    if t.len() < 24 {
+        return t.to_vec();
+    }
+    let lf = u16::from_be_bytes([t[0], t[1]]) as usize;
+    let lh = u16::from_be_bytes([t[2], t[3]]) as usize;
+    if new_lh >= lh || t.len() < 24 + 4 * lh {
+        return t.to_vec();
+    }
+    let mut o = t[..24 + 4 * new_lh].to_vec();
+    o.extend_from_slice(&t[24 + 4 * lh..]);
+    let nlf = (lf - (lh - new_lh)) as u16;
+    o[0..2].copy_from_slice(&nlf.to_be_bytes());
+    o[2..4].copy_from_slice(&(new_lh as u16).to_be_bytes());
+    o
+}
+
 fn shape_t0(sh: &Shape, raw: bool) -> Result<Vec<u8>, String> {
+    let t = shape_t0_uncut(sh, raw)?;
+    if (2..18).contains(&sh.lhcut) {
+        Ok(cut_header(&t, sh.lhcut as usize))
+    } else {
+        Ok(t)
+    }
+}
+
+fn shape_t0_uncut(sh: &Shape, raw: bool) -> Result<Vec<u8>, String> {
     let f = gen_font(sh);
     let pl = font_to_pl(&f);
     dump("src.pl", pl.as_bytes());
@@ -1572,6 +1642,36 @@ impl Property for C11 {
         v.push(Shape { seed: 4, nc: 3, nw: 2, chains: 2, len: 2, labels: 2, pad: 254, bc: 1, lb: 0, ..Shape::parse("") }.show("gen"));
         // C11-b: a trailing LABEL without a step, behind more than 255 steps, in a font with LABEL BOUNDARYCHAR
         v.push(Shape { seed: 5, nc: 3, nw: 2, chains: 1, len: 1, labels: 1, pad: 255, lb: 1, odd: 1, ..Shape::parse("") }.show("gen"));
+        // every sub-file at and around its format limit
+        let base = Shape { seed: 77, nc: 5, nw: 3, ..Shape::parse("") };
+        for hx in [0u32, 1, 2, 100, 235, 236, 237, 238] {
+            // lh = 18 + hx: 18, 19, 20, 118, 253, 254, 255, 256
+            v.push(Shape { hx, seed: 77 + hx as u64, ..base.clone() }.show("gen"));
+            v.push(Shape { hx, seed: 78 + hx as u64, hdr: 0b0010_0111, np: 7, ..base.clone() }.show("raw"));
+        }
+        for lhcut in [2u32, 3, 11, 12, 16, 17] {
+            v.push(Shape { lhcut, hdr: 0b0000_0111, seed: 90 + lhcut as u64, ..base.clone() }.show("gen"));
+        }
+        for np in [253u32, 254] {
+            v.push(Shape { np, seed: 100 + np as u64, ..base.clone() }.show("gen"));
+        }
+        for nw in [254u32, 255, 256] {
+            v.push(Shape { nc: 256, nw, seed: 200 + nw as u64, ..base.clone() }.show("gen"));
+            v.push(Shape { nc: 256, nw, seed: 300 + nw as u64, ..base.clone() }.show("raw"));
+        }
+        for (nh, nd, ni) in [(14u32, 14u32, 62u32), (15, 15, 63), (16, 16, 64)] {
+            v.push(Shape { nc: 200, nw: 20, nh, nd, ni, seed: 400 + nh as u64, ..base.clone() }.show("gen"));
+            v.push(Shape { nc: 200, nw: 20, nh, nd, ni, seed: 500 + nh as u64, ..base.clone() }.show("raw"));
+        }
+        for nv in [255u32, 256] {
+            v.push(Shape { nc: 256, nw: 4, nv, seed: 600 + nv as u64, ..base.clone() }.show("gen"));
+        }
+        // everything maximal at once: 256 characters, 255 widths, 15/15/63, 256 recipes, 254 params, lh = 256
+        v.push(Shape { nc: 256, nw: 255, nh: 15, nd: 15, ni: 63, nv: 256, np: 254, hx: 238, hdr: 0b0010_0111, seed: 701, ..base.clone() }.show("gen"));
+        v.push(Shape { nc: 256, nw: 255, nh: 15, nd: 15, ni: 63, nv: 256, np: 254, hx: 238, hdr: 0b0010_0111, seed: 702, ..base.clone() }.show("raw"));
+        // large lig/kern and kern sub-files (reachable: the leading run is labelled for even seeds)
+        v.push(Shape { nc: 40, nw: 4, chains: 20, len: 3, labels: 2, pad: 6000, lig: 10, seed: 800, ..base.clone() }.show("gen"));
+        v.push(Shape { nc: 40, nw: 4, chains: 20, len: 3, labels: 2, pad: 14000, lig: 0, bc: 1, lb: 1, seed: 802, ..base.clone() }.show("gen"));
         for n in [0, 1, 2, 200, 254, 255, 256] {
             v.push(format!("redir {n} -1"));
             v.push(format!("redir {n} 65"));
@@ -2056,6 +2156,8 @@ impl Property for C11 {
                 field!(np);
                 field!(hdr);
                 field!(odd);
+                field!(hx);
+                field!(lhcut);
                 field!(nh);
                 field!(nd);
                 field!(ni);
